@@ -1,7 +1,7 @@
 T = "Lean 4 theorems over a hand-written model, tied to the code by compiled-derive correspondence (mode B)"
 CLAIMS = {
  'C01': ("Lean 4 proof: first-match characterisation + iff under non-overlap (from_string.rs model); correspondence with compiled derives",
-         "lean/StrumProofs/C01.lean: parse_first_match (no overlap hypothesis), parse_iff, parse_err_iff, parse_never_disabled, fall_spec, noOverlapB_iff - for every enum definition and every byte string, "
+         "lean/StrumProofs/C01.lean: parse_accepting_at (pointwise: the only candidate accepting THIS input is returned, no global non-overlap needed), parse_first_match (no overlap hypothesis), parse_iff, parse_err_iff, parse_never_disabled, fall_spec, noOverlapB_iff - for every enum definition and every byte string, "
          "no bound on variants, spellings or input length. Correspondence: the real EnumString derive on the per-variant exhaustive attribute core x enum-level dimensions with "
          "case-flip / one-edit / look-alike / whitespace / raw-identifier inputs; FromStr and TryFrom compared on every input.",
          "DESIGN.md §6 C01", ""),
